@@ -256,9 +256,17 @@ def gen(i, R, tier, force_mode=None):
         ops.append({"op": "scan_inproc", "nonce": G.nonce(rng)})
     else:
         ops.append({"op": "set_git", "scenario": rng.choice(("none", "ssh", "https_git", "not_a_repo"))})
+        if rng.random() < 0.4:
+            # overlapping exclude / re-include patterns: the effective order of the patterns matters,
+            # so it must not come from a hash-ordered container
+            from . import c11, c12
+            pats = [c11.pattern(rng, placed) for _ in range(rng.randint(1, 2))] + c12.exotic(rng, placed)
+            ops.append({"op": rng.choice(("set_gitignore", "set_yml", "set_cli")), "patterns": pats})
+            if rng.random() < 0.5:
+                ops.append({"op": rng.choice(("set_gitignore", "set_yml", "set_cli")), "patterns": c12.exotic(rng, placed)})
         for j in range(rng.randint(2, 4)):
             ops.append({"op": "advance_clock", "seconds": rng.choice((0, 1, 59, 3600, 86400 * 400, -86400))})
-            ops.append({"op": "scan", "nonce": G.nonce(rng), "spelling": rng.choice(("dot", "abs", "rel_parent"))})
+            ops.append({"op": "scan", "nonce": G.nonce(rng), "spelling": rng.choice(("dot", "abs", "rel_parent", "symlink", "dotdot"))})
             ops.append({"op": "cache_delete", "what": "dir"})
             if rng.random() < 0.5:
                 lexer, cid = rng.choice(malformed)
